@@ -1519,6 +1519,43 @@ fn selftest(seed: u64) -> Stats {
     st
 }
 
+/// The machine-arithmetic preconditions of the contracts (contracts/interval_*.vc): an executable twin of a contract
+/// only judges inputs the contract speaks about.  They only bind 8-byte values:
+///  * `(end - start) as u64` is computed on i64 in the stride rounding: stride >= 2 ==> span <= i64::MAX, where the
+///    span includes the widening hints (a merge may widen to a hint) and, for binary operations, both operands;
+///  * the CRT computation of an intersection needs lcm(stride_a, stride_b) <= u64::MAX.
+/// Outside them the real code panics in builds with overflow checks (and wraps correctly without) or returns the
+/// documented overflow error; DESIGN.md section 11 lists these as observations.
+fn machine_pre(c: &Case) -> bool {
+    let Case::Iv(c) = c else { return true };
+    let mut doms: Vec<&Dom> = vec![&c.a.d];
+    if let Some(b) = &c.b { doms.push(&b.d); }
+    if doms.iter().all(|d| d.w < 64) { return true; }
+    let mut lo = i128::MAX;
+    let mut hi = i128::MIN;
+    for d in &doms {
+        for v in [Some(d.start), Some(d.end), d.lo, d.hi].into_iter().flatten() {
+            lo = lo.min(sval(d.w, v));
+            hi = hi.max(sval(d.w, v));
+        }
+    }
+    let any_stride = doms.iter().any(|d| d.stride >= 2);
+    if any_stride && hi - lo > i64::MAX as i128 { return false; }
+    if let Some(b) = &c.b {
+        let (sa, sb) = (c.a.d.stride as u128, b.d.stride as u128);
+        if sa > 0 && sb > 0 {
+            fn gcd(a: u128, b: u128) -> u128 { if b == 0 { a } else { gcd(b, a % b) } }
+            if (sa / gcd(sa, sb)).saturating_mul(sb) > u64::MAX as u128 { return false; }
+        }
+    }
+    // the bound of a refinement may become the new interval end / start
+    if let Some(v) = c.v {
+        let d = &c.a.d;
+        if d.stride >= 2 && (hi.max(sval(d.w, v)) - lo.min(sval(d.w, v))) > i64::MAX as i128 { return false; }
+    }
+    true
+}
+
 fn drive(twin: &str, case: Option<&str>, seed: u64, stop_at_first: bool) -> Stats {
     quiet_panics();
     if twin == "c02.selftest" {
@@ -1527,6 +1564,9 @@ fn drive(twin: &str, case: Option<&str>, seed: u64, stop_at_first: bool) -> Stat
     let mut st = Stats::default();
     let dump: u64 = std::env::var("VERIF_DUMP").ok().and_then(|s| s.parse().ok()).unwrap_or(0);
     enumerate(twin, case, seed, &mut |c| {
+        if !machine_pre(c) {
+            return false;
+        }
         if let Some(v) = check(c, &mut st) {
             st.fails += 1;
             let kind = kind_of(&v);
